@@ -241,7 +241,7 @@ func jsonGen() *rapid.Generator[any] {
 		switch k {
 		case 0:
 			return rapid.SampledFrom([]string{"null", "true", "false", "0", "-0", "1", "-1", "1.5", "-2.25", "1e308", "5e-324", "1e2", "123456789012", "9007199254740993",
-				"18446744073709551615", "-9223372036854775808", "0.1", "1.0", "100000000000000000000", "3.0e0"}).Draw(rt, "lit")
+				"18446744073709551615", "-9223372036854775808", "9.223372036854776e18", "1.2345678901234567e19", "4.611686018427388e18", "-9.3e18", "1.8446744073709552e19", "0.1", "1.0", "100000000000000000000", "3.0e0"}).Draw(rt, "lit")
 		case 1, 2:
 			return str(rt)
 		case 3:
